@@ -276,9 +276,9 @@ LINTS = (" Package-wide disciplines checked in the property's modules: truthines
          "accumulates over (RUNSUM); setters and constructors keep copies of array arguments, not views (ALIAS); a label is compared as given, never after folding "
          "case or trimming blanks (LABEL).")
 ADDENDA = {
-    "C01": " Inside the Euler direction loop the only tests that skip a neighbour are the table's own -1 (or the cell itself) and the entry's chemostat flag (PHASE); every conversion factor is taken from the converted object's own system (ARGS-CONV). The reaction rates of a cell are computed unconditionally; grouped environment keys reach every listed environment (GROUPKEY). Every species contributes its factor to the Euler rate (a factor may be skipped only where its own reactant coefficient is 0); Iterate calls the derivative pass and the update pass once each, outside every loop. Each axis's boundary mode reaches the engine slot of that axis (AXIS). The graph is undirected in get_edge and in the neighbour enumeration of the graph kinetics (NEIGH); Iterate runs the "
+    "C01": " The Euler update pass stores each state entry once (PHASE). Inside the Euler direction loop the only tests that skip a neighbour are the table's own -1 (or the cell itself) and the entry's chemostat flag (PHASE); every conversion factor is taken from the converted object's own system (ARGS-CONV). The reaction rates of a cell are computed unconditionally; grouped environment keys reach every listed environment (GROUPKEY). Every species contributes its factor to the Euler rate (a factor may be skipped only where its own reactant coefficient is 0); Iterate calls the derivative pass and the update pass once each, outside every loop. Each axis's boundary mode reaches the engine slot of that axis (AXIS). The graph is undirected in get_edge and in the neighbour enumeration of the graph kinetics (NEIGH); Iterate runs the "
            "whole derivative pass before the update pass." + LINTS,
-    "C02": " The three per-node neighbour lists of the graph engine are parallel: none of them is re-ordered, erased from or handed to an algorithm by iterator (NBR-TABLE). The samples handed to the caller are the ones the engine recorded (FETCH-PY). The Euler derivative pass does not write the state and a separate update pass exists (PHASE); state and chemostat flags reach Init in one layout with counts of the right kind (TRANSPOSE). The grid neighbour table is exactly GetNeighborIndex(coordinates of i, n) and is written nowhere else, graph edges are "
+    "C02": " The two halves of a diffusion move stand under the same conditions, their own chemostat flags aside (PAIR). The three per-node neighbour lists of the graph engine are parallel: none of them is re-ordered, erased from or handed to an algorithm by iterator (NBR-TABLE). The samples handed to the caller are the ones the engine recorded (FETCH-PY). The Euler derivative pass does not write the state and a separate update pass exists (PHASE); state and chemostat flags reach Init in one layout with counts of the right kind (TRANSPOSE). The grid neighbour table is exactly GetNeighborIndex(coordinates of i, n) and is written nowhere else, graph edges are "
            "registered from both ends (NBR-TABLE); un-coarse-graining gives each cell node value / node size (UNCG)." + LINTS,
     "C03": " No bare number of a quantity is taken without conversion on the derivative path (STATE); free entries follow the tau-leap firing law (TAU). The Euler derivative / update passes are those of C01.PHASE. The samples handed to the caller are the ones the engine recorded (FETCH-PY). Every path of the per-entry kinetics derivative that returns a computed rate has passed the chemostat test of the entry with a negative answer (PY-ZERO). The chemostat map crosses the ctypes boundary as a c_int array (FFI); a state update depends on the flag of its own "
            "entry and on no other entry's flag." + LINTS,
@@ -286,7 +286,7 @@ ADDENDA = {
     "C05": " The quantity classes are not readable as sequences by numpy unless they opt out of numpy's conversion, so `number op quantity` always reaches the reflected operator (REFLECTED). With a quantity operand, + - % and the comparisons return a result only on a path that found the two dimensions equal. Comparison operators return the comparison of the magnitudes itself (CMP); the array (op) array branch is dominated by "
            "the length test (LEN)." + LINTS,
     "C06": " A computed element type is not used for stored numbers; UnitArray.set_at stores the given quantity converted to the array's units (SET-AT); a class's own __ne__ is the negation of its __eq__ (EQ3). UnitValue.convert returns only through the guarded converter. Factors of one base kind add their exponents (EXPSUM); the destination system of a conversion is a function of the target argument alone (DIMGUARD). Every call of convert_value / compute_conversion_factor names the converted object's own system as the source (ARGS); module-level constants (Avogadro) are folded into the SI table check. _UnitsComponentDict.__eq__ is true only when all three components are equal (EQ3)." + LINTS,
-    "C07": " Every direction of the neighbour table is scanned where diffusion events are listed and drawn (NBR-USE). Engine tables are addressed in their one layout (LAYOUT). All counts of a tau-leap step are drawn before the first is applied (Compute_nevt and Apply_nevt once each, outside every loop). A tau-leap step advances the clock by the dt of Poisson(propensity x dt) (TAU). Propensities are recomputed for every cell and channel, independent of the cell's content (ALL-CHANNELS). A diffusion event moves one molecule between a cell and that direction's neighbour, each half suppressed only by its own "
+    "C07": " Every LibRDEngine built for a stochastic option is built with the molecule flag (UNITS). Every direction of the neighbour table is scanned where diffusion events are listed and drawn (NBR-USE). Engine tables are addressed in their one layout (LAYOUT). All counts of a tau-leap step are drawn before the first is applied (Compute_nevt and Apply_nevt once each, outside every loop). A tau-leap step advances the clock by the dt of Poisson(propensity x dt) (TAU). Propensities are recomputed for every cell and channel, independent of the cell's content (ALL-CHANNELS). A diffusion event moves one molecule between a cell and that direction's neighbour, each half suppressed only by its own "
            "chemostat flag (PAIR); every value returned by Poisson(lambda) is 0 or one draw of std::poisson_distribution(lambda) "
            "from the engine's generator (TAU); every number the engines receive is converted to the molecule-forced engine units "
            "(UNITS); event choice and waiting time use independent uniform draws (DRAWS).",
@@ -294,17 +294,17 @@ ADDENDA = {
            + LINTS,
     "C09": " The dead-state exit belongs to the exact engine only (COMPLETE). The two fetch methods fill what they return from the native buffer only (FETCH-PY). Completion is flagged only past t_max or in a dead state (COMPLETE). A saved trajectory carries the recorded times (TRAJ)." + LINTS,
     "C10": " What the engine object keeps from a set-up is a copy, never the caller's own script object (OWN). The loop exports return a bool, 0 or 1 (STATUS: Python reads them by truthiness); a delete through an algorithm pointer is reached under that pointer's type code or followed by a reset to null. Completion is flagged only past t_max or in a dead state (COMPLETE); the native release is reached only through finalize() itself, not from a destructor or another method of an engine object (RELEASE); refusal codes of the initialiser reach the caller (GLOBALS). setup leaves the caller's script untouched (PY-PURE)." + LINTS,
-    "C11": " Nothing deletes through the type-selected pointer while the type code does not identify the live object (TYPE-PTR); fetch buffers are sized from the engine's own copy of the script (OWN). Float-to-integer conversions are of quantities bounded by construction (FPCAST, frozen table with reasons); index data is range-checked on both ends where it enters (EXTIDX). Integer divisions divide by grid extents, non-zero literals or tested divisors (INTDIV); a delete through an algorithm pointer is reached under its type code or followed by a reset (FINALIZE). n_env and the per-environment tables are built over the network's whole environment list, the one the cell environment indices are validated against (ENV-RANGE). `T[E - c]` (last elements) needs a dominating test that the table is not empty; the value BuildMeshNeighbors stores is a valid cell index or -1 (GetNeighborIndex rules of C15). An index formed by adding a value of no index kind to an index of a known kind is reported as unbounded; a Python buffer "
+    "C11": " An index local stepped in a loop that never compares it with a bound is a violation (BOUNDS). Nothing deletes through the type-selected pointer while the type code does not identify the live object (TYPE-PTR); fetch buffers are sized from the engine's own copy of the script (OWN). Float-to-integer conversions are of quantities bounded by construction (FPCAST, frozen table with reasons); index data is range-checked on both ends where it enters (EXTIDX). Integer divisions divide by grid extents, non-zero literals or tested divisors (INTDIV); a delete through an algorithm pointer is reached under its type code or followed by a reset (FINALIZE). n_env and the per-environment tables are built over the network's whole environment list, the one the cell environment indices are validated against (ENV-RANGE). `T[E - c]` (last elements) needs a dominating test that the table is not empty; the value BuildMeshNeighbors stores is a valid cell index or -1 (GetNeighborIndex rules of C15). An index formed by adding a value of no index kind to an index of a known kind is reported as unbounded; a Python buffer "
            "built by a length-changing call (np.unique, set, filter ...) does not have the extent the engine is told; neighbour counts and "
            "rows grow on exactly the same paths (RAGGED-PAIR).",
-    "C12": " The default state an omitted key stands for is density x volume of each cell (CONCAT); a UnitValue holds a Python float, so its printed text reads back to the same bits (UNITSTR). Path resolution never looks at the file system or the working directory (FILEREF); the literal key read by the units lookup helper is the canonical key of its row (SCHEMA). A dictionary parsed from a file is interpreted relative to that file's directory (FILEREF); the equation text of a reaction reads back with whole tokens as labels (ACCUM); a value filter in front of float() accepts every shape str(float) prints (VALUE-READ). A writer emits each key on every path except the two idioms whose absence reads back as the same value (COND-KEY); "
+    "C12": " A reader puts into the constructor's argument table only what it computed from its dictionary, and a per-environment table is written as a table (DEFAULTS). The default state an omitted key stands for is density x volume of each cell (CONCAT); a UnitValue holds a Python float, so its printed text reads back to the same bits (UNITSTR). Path resolution never looks at the file system or the working directory (FILEREF); the literal key read by the units lookup helper is the canonical key of its row (SCHEMA). A dictionary parsed from a file is interpreted relative to that file's directory (FILEREF); the equation text of a reaction reads back with whole tokens as labels (ACCUM); a value filter in front of float() accepts every shape str(float) prints (VALUE-READ). A writer emits each key on every path except the two idioms whose absence reads back as the same value (COND-KEY); "
            "str(UnitValue) prints str(value), a blank, the units (shared with C18)." + LINTS,
-    "C13": " The volume multiplied into entry i is read at index i (TAG); setters keep copies of array arguments (ALIAS). The system holds the network object it was given and the default generators read it when called (REGEN). Grouped environment keys are stripped per label (GROUPKEY); nested objects inherit the units of their own level (INHERIT). get_value_in_env selects by membership (`in` / dict.get), never by truthiness (ENV)." + LINTS,
+    "C13": " Every piece of a grouped key becomes a key: the iterable is followed through locals and comprehensions, a filter is a violation (GROUPKEY). The volume multiplied into entry i is read at index i (TAG); setters keep copies of array arguments (ALIAS). The system holds the network object it was given and the default generators read it when called (REGEN). Grouped environment keys are stripped per label (GROUPKEY); nested objects inherit the units of their own level (INHERIT). get_value_in_env selects by membership (`in` / dict.get), never by truthiness (ENV)." + LINTS,
     "C14": " Besides the selection, a unit correction stands only under conditions on the difference and its direction; every scalar that steers the correction is (re)initialised for each species (COUNT). The amounts handed to the engine are the state's, converted from the state's own units (STATE); a coarse-grained run keeps the script's mode (SCRIPT). Every value stored into the drawn state is a whole number by construction (INTEGER); the correction's selection is weighted by the real-valued input amounts and its target scaled by their floored total (COUNT). The element-wise modes index the state over all cells x species entries (EVERY-ENTRY); the script reader passes init_state_processing on (SCHEMA). The redistribution selects the first cell whose running sum strictly exceeds the target; no function-local static survives a set-up (STATIC). The correction counter advances under exactly the conditions of a unit update of the drawn state (COUNT); the seed "
            "handed to the engine is the script's and only a missing seed is drawn (SEED-PY)." + LINTS,
-    "C15": " Inside the direction loop of Build_mesh_kd the only test that excludes a (cell, direction) pair is the neighbour table's -1 or a zero coefficient (NBR-USE). get_edge is orientation-free in loop, generator or table form, the table being filled under the key it is read with (NEIGH); edge quantities reach the engine converted from their own units (STATE). Every loop over the direction slot of the neighbour table visits all six directions. An adjacency answer computed from linear indices without their coordinates is a violation (row ends). The per-axis boundary modes reach slot k from the parameter of axis k, in if-chain or table form. No engine subscript addresses a cell through index arithmetic on another cell index (NBR-USE); are_neighbors returns "
+    "C15": " get_cell_index truncates each coordinate on its own (RADIX). Inside the direction loop of Build_mesh_kd the only test that excludes a (cell, direction) pair is the neighbour table's -1 or a zero coefficient (NBR-USE). get_edge is orientation-free in loop, generator or table form, the table being filled under the key it is read with (NEIGH); edge quantities reach the engine converted from their own units (STATE). Every loop over the direction slot of the neighbour table visits all six directions. An adjacency answer computed from linear indices without their coordinates is a violation (row ends). The per-axis boundary modes reach slot k from the parameter of axis k, in if-chain or table form. No engine subscript addresses a cell through index arithmetic on another cell index (NBR-USE); are_neighbors returns "
            "sum over the axes of the wrapped coordinate distance == 1, decided on the symbolically evaluated return value." + LINTS,
-    "C16": " The graph engine's edge constants are the kinetics formula with source and destination not exchanged (ANTISYM). Output edges are kept one per unordered pair of groups, in list-search or dictionary form (EDGE). The graph Euler passes are those of the grid engine (PHASE); the map is validated as the caller gave it (VALID-FIRST). No rejection is guarded by a condition on volumes, surfaces or distances (ACCEPT). The environment-mixing rejection is reached only for a group index other than -1 (ACCEPT). Edge distances are the centroid distances, unconditionally (DIST); every number of the graph set-up is converted to the engine units (BOUNDARY); tables are addressed with one index kind (LAYOUT). The state accumulator is not an integer array (KIND); the coarse-grained script is the script with only its system "
+    "C16": " State and chemostat flags reach the grid and the graph initialiser in one layout (TRANSPOSE). The graph engine's edge constants are the kinetics formula with source and destination not exchanged (ANTISYM). Output edges are kept one per unordered pair of groups, in list-search or dictionary form (EDGE). The graph Euler passes are those of the grid engine (PHASE); the map is validated as the caller gave it (VALID-FIRST). No rejection is guarded by a condition on volumes, surfaces or distances (ACCEPT). The environment-mixing rejection is reached only for a group index other than -1 (ACCEPT). Edge distances are the centroid distances, unconditionally (DIST); every number of the graph set-up is converted to the engine units (BOUNDARY); tables are addressed with one index kind (LAYOUT). The state accumulator is not an integer array (KIND); the coarse-grained script is the script with only its system "
            "replaced (SCRIPT); the returned trajectory passes every RDTrajectory field from the coarse one (UNCG-TRAJ)." + LINTS,
     "C17": " The time axis tiles are matched by returned value and guarding tests, a missing tile and an undocumented return both being violations (TILING). get_sample_index answers only through the three finders. The saved data file holds the flat data array (TRAJ); queries store nothing in self (QUERY)." + LINTS,
     "C18": " Every store to UnitValue._value is float(..) (PRINT). A parameter handed to parse_units is not rewritten on the way (RAW-TEXT). Inside a factor the symbol text grows only until the first exponent character (EXPSTATE). Factors of one base kind add their exponents (EXPSUM); a value filter in front of float() accepts every shape str(float) prints (VALUE-READ). Every factor passes the unknown-unit test and the empty text is answered before the factor loop (BLOCKS); '/' inverts exactly the factor it precedes (EXPSIGN). str(UnitValue) prints str(value) (no digits dropped)." + LINTS,
@@ -314,7 +314,7 @@ ADDENDA = {
 }
 TECH_ADD = ("; canonicalisation before the rules (inventory-based helper inlining, accumulator promotion, enumerate / literal-loop "
             "normalisation, continuation-style inlining of search helpers, builder-dictionary / callable-alias / array-alias forms; "
-            "C++: guarded-value helpers, row pointers, for(;c;step) loops, enum case labels), symbolic evaluation of Python returns (pysym)")
+            "C++: guarded-value helpers, row pointers, for(;c;step) loops, enum case labels; locals aligned with the reference names by alpha-renaming in both languages), symbolic evaluation of Python returns (pysym)")
 
 NOT_YET = {}
 
